@@ -172,6 +172,8 @@ def greedy_substitution(model, X, motifs, y, loss=torch.nn.MSELoss(
 				best_pos = pos
 				best_loss = loss_curr
 
+		if best_improvement <= tol:
+			break
 
 		if best_motif_idx != -1:
 			X = substitute(X, motifs[best_motif_idx], start=best_pos, 
@@ -183,9 +185,6 @@ def greedy_substitution(model, X, motifs, y, loss=torch.nn.MSELoss(
 					"Motif Idx: {}, Pos Idx: {}, Time (s): {:4.4}").format(
 						iteration+1, best_loss, best_improvement, 
 						best_motif_idx, best_pos, time.time() - tic))
-
-		if best_improvement <= tol:
-			break
 
 		iteration += 1
 
